@@ -35,13 +35,15 @@ RULE = ('(a) seeded structured batches arr[N, T, C] of integer- or dyadic-valued
         'planted boundaries: trough exactly at 2/3 of the peak (+-1), equal maxima in time and across channels, no half-peak sample '
         'before / after the peak, a sample exactly at half the peak, positive peak that stays high afterwards (former finding F21 class), NaN-padded and '
         'partially-NaN channels, small-integer noise waveforms (many ties), a waveform with its peak on sample 0 (must raise), recovery '
-        'offsets k in {0..T+1} through (fs, recovery_duration_ms) incl. the defaults, 2-D input, scale factors 1/4, 1/2, 1024; '
+        'offsets k in {0..T+1} through (fs, recovery_duration_ms) incl. the defaults, 2-D input, dyadic scale factors over 30 decades: 1/4, 1/2, '
+        '1024 and 2^-40, 2^-27, 2^-25 (Volt-scale data, 3e-8..9e-5), 2^-13, 2^30, 2^60 (for these the model runs on the integers and its value '
+        'columns are scaled afterwards: theorem scale_equivariant); '
         '(b) the exhaustive box of ALL single-channel waveforms over {-1, 0, 1} of length 10 (thorough: also 11) whose largest deflection is '
         'not on sample 0, plus those where it is (quick: a sample; thorough: all of length 10), with k in {0, 1, 5, T-1}; '
         'each batch runs once through the real compute_spike_features and once through the Lean model `batch`; a case is one batch; '
         'non-trivial = succeeds with >= 1 waveform whose peak is not the last sample; distinct by generated content')
 ASSUMPTIONS = [
-    'waveform samples are integers or dyadic rationals of magnitude < 2^22 held in float32/float64: abs, max, negation, halving, '
+    'waveform samples are integers < 2^22 times a power of two (2^-40 .. 2^60) held in float32/float64: abs, max, negation, halving, '
     'subtraction of the half maximum and all comparisons are then exact in NumPy, and float32 rounding of peak/trough cannot move '
     'the quotient across 1.5 (|2p-3t|/(2t) >= 1/(2t) > 2^-24 * 1.5); the model computes in exact rationals',
     'derived float columns (durations, ratio, log ratio, slopes) are compared with the exact rational of the model to rel. 2e-6 '
@@ -271,13 +273,18 @@ def gen_batch(rng, quick=True):
                 break
         waves.append(x)
         tags.add(tag)
-    arr = np.stack(waves)
-    sc = float(_pick(rng, [1, 0.25, 0.5, 1024], [8, 1, 1, 1]))
-    arr = arr * sc
+    base = np.stack(waves)                   # integer-valued
+    # moderate dyadic scales are given to the model as they are; the extreme ones (Volt-scale data = integers * 2^-25, i.e.
+    # 3e-8 .. 9e-5, and scales down to 2^-40 / up to 2^60) reach the real code only: the model runs on the integers and its
+    # value columns are multiplied by the scale afterwards, which `scale_equivariant` justifies (exact for powers of two)
+    sc = float(_pick(rng, [1, 0.25, 0.5, 1024, 2.0 ** -25, 2.0 ** -40, 2.0 ** -27, 2.0 ** -13, 2.0 ** 30, 2.0 ** 60],
+                     [8, 1, 1, 1, 1.5, 0.5, 0.5, 0.5, 0.5, 0.5]))
+    extreme = not (2.0 ** -3 <= sc <= 2.0 ** 11)
     dtype = np.float32 if rng.random() < 0.6 else np.float64
-    arr = arr.astype(dtype)
+    arr = (base * sc).astype(dtype)
     two_d = bool(N == 1 and rng.random() < 0.3)
-    return {'arr': arr, 'kw': kw, 'k': k, 'fs': fs, 'T': T, 'C': C, 'N': N, 'tags': sorted(tags), 'two_d': two_d,
+    return {'arr': arr, 'marr': base if extreme else arr, 'mscale': Fraction(sc) if extreme else Fraction(1),
+            'kw': kw, 'k': k, 'fs': fs, 'T': T, 'C': C, 'N': N, 'tags': sorted(tags), 'two_d': two_d,
             'scale': sc, 'dtype': np.dtype(dtype).name}
 
 
@@ -307,11 +314,29 @@ def _impl_rows(df):
     return out
 
 
-def _model_rows(ans):
+VAL_COLS = ['peak_val', 'trough_val', 'tip_val', 'half_peak_post_val', 'half_peak_pre_val', 'recovery_val']
+SLOPE_COLS = ['depolarisation_slope', 'repolarisation_slope', 'recovery_slope']
+
+
+def _scale_tok(tok, m):
+    if tok in ('nan', 'inf', '-inf'):
+        return tok
+    f = Fraction(tok) * m
+    return str(f.numerator) if f.denominator == 1 else f'{f.numerator}/{f.denominator}'
+
+
+def _model_rows(ans, mscale=Fraction(1)):
+    """rows of the model's answer; value columns and slopes multiplied by `mscale` (the model ran on the unscaled data)"""
     rows = []
     for tok in ans[3:].split('|'):
         f = tok.split(',')
-        rows.append((dict(zip(IDX_COLS, f[:14])), dict(zip(DER_COLS, f[14:20]))))
+        ex, de = dict(zip(IDX_COLS, f[:14])), dict(zip(DER_COLS, f[14:20]))
+        if mscale != 1:
+            for c in VAL_COLS:
+                ex[c] = _scale_tok(ex[c], mscale)
+            for c in SLOPE_COLS:
+                de[c] = _scale_tok(de[c], mscale)
+        rows.append((ex, de))
     return rows
 
 
@@ -325,7 +350,7 @@ class _Stats:
         self.c = __import__('collections').Counter()
 
 
-def _compare_batch(ctx, st, op, desc, arr, call, kw, k, T, dtype, ans, tags):
+def _compare_batch(ctx, st, op, desc, arr, call, kw, k, T, dtype, ans, tags, mscale=Fraction(1)):
     """Run the real code on `call` (the array handed to compute_spike_features; `arr` is the same data as (N, T, C)),
     compare with the model's answer `ans`, register the case."""
     N = arr.shape[0]
@@ -341,7 +366,7 @@ def _compare_batch(ctx, st, op, desc, arr, call, kw, k, T, dtype, ans, tags):
         impl_s, model_s = f'ok ({len(df)} rows)', ans
     else:
         tags = tags + ['succeeds']
-        irows, mrows = _impl_rows(df), _model_rows(ans)
+        irows, mrows = _impl_rows(df), _model_rows(ans, mscale)
         if len(irows) != len(mrows) or len(irows) != N:
             impl_s, model_s = f'ok {len(irows)} rows', f'ok {len(mrows)} rows'
         else:
@@ -387,7 +412,7 @@ def correspondence(ctx):
     # (a) structured random batches --------------------------------------------------------------
     ncase = ctx.n(700, 6000)
     cases = [gen_batch(ctx.subrng(1, i), ctx.quick) for i in range(ncase)]
-    lines = [f"batch {g['k']} {g['T']} {g['fs']} {_encode(g['arr'])}" for g in cases]
+    lines = [f"batch {g['k']} {g['T']} {g['fs']} {_encode(g['marr'])}" for g in cases]
     model = []
     for a in range(0, len(lines), 400):
         model += ctx.lean(lines[a:a + 400])
@@ -402,7 +427,9 @@ def correspondence(ctx):
                 'k=default' if not g['kw'] else ('k>=T' if g['k'] >= g['T'] else 'k=T-2..T-1' if g['k'] >= g['T'] - 2
                                                  else 'k=0' if g['k'] == 0 else 'k<T-2')]
         tags += ['plant:' + t for t in g['tags']] + (['2-D input'] if g['two_d'] else [])
-        _compare_batch(ctx, st, 'batch', desc, arr, call, g['kw'], g['k'], g['T'], g['dtype'], ans, tags)
+        tags.append('scale 1' if g['scale'] == 1 else 'scale 2^-25 (Volt-scale data)' if g['scale'] == 2.0 ** -25 else
+                    'scale <= 2^-13' if g['scale'] < 1e-3 else 'scale >= 2^30' if g['scale'] > 1e6 else 'scale 1/4..1024')
+        _compare_batch(ctx, st, 'batch', desc, arr, call, g['kw'], g['k'], g['T'], g['dtype'], ans, tags, g['mscale'])
     n_random_rows = st.rows
     # (b) exhaustive box: every single-channel waveform with samples in {-1, 0, 1} ----------------------
     import itertools
@@ -536,8 +563,61 @@ def _same(r1, r2, cols, fac=1.0):
         if c in INT_COLS:
             if int(a) != int(b):
                 return c
-        elif not (a * fac == b or (math.isnan(a) and math.isnan(b))):
+        elif not (a * fac == b or (math.isnan(a) and math.isnan(b)) or (math.isinf(a) and a == b)):
             return c
+    return None
+
+
+SCALE_FACTORS = [2.0 ** -40, 2.0 ** -30, 2.0 ** -27, 2.0 ** -20, 2.0 ** -13, 0.5, 2.0, 3.0, 2.0 ** 10, 2.0 ** 30]
+
+
+def _fmt_c(c):
+    e = math.log2(c)
+    return f'{c!r} (= 2^{int(e)})' if e == int(e) else repr(c)
+
+
+def _scale_laws(arr, kw, df=None):
+    """"Scaling the waveform by c > 0 scales all values and leaves all indices unchanged", for c over many decades (powers of
+    two, so that the scaling itself is exact; factors that would leave the normal range of the dtype are skipped).
+    Returns (c, description) for the first factor that breaks it, else None."""
+    if df is None:
+        df, err = _features(arr, **kw)
+        if df is None:
+            return None
+    N = arr.shape[0]
+    a = np.abs(_clean(arr))
+    amax, amin = a.max(), (a[a > 0].min() if (a > 0).any() else 1.0)
+    lim = 100 if arr.dtype == np.float32 else 900
+    cols_i = [c for c in IDX_COLS if c in INT_COLS]
+    cols_v = [c for c in IDX_COLS if c not in INT_COLS and c != 'invert_sign_peak']
+    weak = None
+    for cfac in SCALE_FACTORS:
+        if not (amax * cfac < 2.0 ** lim and amin * cfac > 2.0 ** -lim):
+            continue
+        d2, e2 = _features(arr * arr.dtype.type(cfac), **kw)
+        if d2 is None:
+            return cfac, f'scaling the batch by c = {_fmt_c(cfac)} makes the extraction raise ({e2})'
+        pow2 = math.log2(cfac) == int(math.log2(cfac))
+        for n in range(N):
+            r1, r2 = df.iloc[n], d2.iloc[n]
+            bad = _same(r1, r2, cols_i) or _same(r1, r2, cols_v, cfac)
+            if not bad and pow2:          # derived columns: ratio and durations invariant, slopes * c (exact for powers of two)
+                bad = (_same(r1, r2, ['peak_to_trough_ratio', 'peak_to_trough_ratio_log', 'peak_to_trough_duration', 'half_peak_duration'])
+                       or _same(r1, r2, SLOPE_COLS, cfac))
+            if bad and bad not in IDX_COLS and weak is None:
+                weak = (cfac, n, bad, r1, r2)          # a derived column only: keep looking for an index / value column
+                continue
+            if bad:
+                exp = 'the same' if bad in INT_COLS or bad.startswith('peak_to_trough') or bad.endswith('duration') else f'{float(r1[bad]) * cfac!r}'
+                return cfac, (f'waveform {n}: scaling the batch by c = {_fmt_c(cfac)} changes {bad} from {float(r1[bad])!r} to '
+                              f'{float(r2[bad])!r} (expected {exp}); peak {float(r1["peak_val"])!r} at {int(r1["peak_time_idx"])} / '
+                              f'trough {float(r1["trough_val"])!r} at {int(r1["trough_time_idx"])} unscaled, peak at '
+                              f'{int(r2["peak_time_idx"])} / trough at {int(r2["trough_time_idx"])} scaled')
+    if weak:
+        cfac, n, bad, r1, r2 = weak
+        exp = 'the same' if not bad.endswith('slope') else f'{float(r1[bad]) * cfac!r}'
+        return cfac, (f'waveform {n}: scaling the batch by c = {_fmt_c(cfac)} changes {bad} from {float(r1[bad])!r} to '
+                      f'{float(r2[bad])!r} (expected {exp}); peak {float(r1["peak_val"])!r} / trough {float(r1["trough_val"])!r} unscaled')
     return None
 
 
@@ -558,17 +638,10 @@ def oracle(arr, kw, k, rng=None):
         msg = _row_laws(xs[n], df.iloc[n], k, T)
         if msg:
             return f'waveform {n}: {msg}'
-    # scaling by c > 0
-    for cfac in (2.0, 0.5, 3.0):
-        d2, e2 = _features(arr * arr.dtype.type(cfac), **kw)
-        if d2 is None:
-            return f'scaling by {cfac} makes the extraction raise ({e2})'
-        for n in range(N):
-            cols_i = [c for c in IDX_COLS if c in INT_COLS]
-            cols_v = [c for c in IDX_COLS if c not in INT_COLS and c != 'invert_sign_peak']
-            bad = _same(df.iloc[n], d2.iloc[n], cols_i) or _same(df.iloc[n], d2.iloc[n], cols_v, cfac)
-            if bad:
-                return f'waveform {n}: scaling the batch by {cfac} changes {bad}: {float(df.iloc[n][bad])} -> {float(d2.iloc[n][bad])}'
+    # scaling by c > 0, over many decades
+    sv = _scale_laws(arr, kw, df)
+    if sv:
+        return sv[1]
     # batch independence
     if N > 1:
         for n in range(N):
@@ -602,9 +675,18 @@ def _fails(arr, kw, k):
         return f'oracle raised {type(e).__name__}: {e}'
 
 
+def _sev(msg):
+    """2 = an index / value column or a raise; 1 = only a derived column (ratio, duration, slope) under scaling"""
+    if not msg:
+        return 0
+    return 1 if any(f'changes {c} ' in msg for c in DER_COLS + ['peak_to_trough_ratio_log']) else 2
+
+
 def _shrink(arr, kw, k):
-    """Greedy reduction of a failing batch: single waveform, fewer channels, shorter window, smaller numbers."""
+    """Greedy reduction of a failing batch (never to a weaker kind of failure): single waveform, fewer channels, shorter
+    window, smaller numbers."""
     msg = _fails(arr, kw, k)
+    sev = _sev(msg)
     improved = True
     while improved:
         improved = False
@@ -618,13 +700,13 @@ def _shrink(arr, kw, k):
             cands += [arr[:, 1:, :], arr[:, :-1, :]] + [np.delete(arr, t, axis=1) for t in range(1, T - 1)][:60]
         for cand in cands:
             m2 = _fails(cand, kw, k)
-            if m2:
+            if _sev(m2) >= sev:
                 arr, msg, improved = cand, m2, True
                 break
     for div in (1000, 100, 10, 4, 2):        # smaller magnitudes
         cand = (np.where(np.isnan(arr), np.nan, np.trunc(arr / div)) + 0.0).astype(arr.dtype)
         m2 = _fails(cand, kw, k)
-        if m2:
+        if _sev(m2) >= sev:
             arr, msg = cand, m2
     return arr, msg
 
@@ -636,34 +718,41 @@ def search(ctx, reasons):
         if i is not None:
             cands.append(gen_batch(ctx.subrng(1, i), ctx.quick))
     n_extra = ctx.n(500, 3000)
-    best = None
+    best, nfound = None, 0
     t_start = __import__('time').time()
     for j in range(len(cands) + n_extra):
         g = cands[j] if j < len(cands) else gen_batch(ctx.subrng(2, j), True)
         msg = _fails(g['arr'], g['kw'], g['k'])
         if msg:
             arr, msg = _shrink(g['arr'], g['kw'], g['k'])
-            size = arr.size
+            size = (-_sev(msg), arr.size)
             if best is None or size < best[0]:
                 best = (size, arr, g, msg)
-            if size <= 40:
+            if size <= (-2, 40):
                 break
-        if best and j >= len(cands) + 50:
+            nfound += 1
+        if best and (j >= len(cands) + 50 or nfound >= 25):
             break
         if __import__('time').time() - t_start > 600:
             break
     if not best:
         return None
     _, arr, g, msg = best
-    return {'input': {'arr_in (wav, time, trace)': [[[None if math.isnan(v) else v for v in row] for row in w] for w in arr.tolist()],
-                      'dtype': str(arr.dtype), 'kwargs': g['kw'], 'idx_from_trough': g['k']},
+    inp = {'arr_in (wav, time, trace)': [[[None if math.isnan(v) else v for v in row] for row in w] for w in arr.tolist()],
+           'dtype': str(arr.dtype), 'kwargs': g['kw'], 'idx_from_trough': g['k']}
+    sv = _scale_laws(arr, g['kw'])
+    if sv and sv[1] == msg:               # the broken law is the scaling law: name the factor
+        inp['scale_factor_c'] = sv[0]
+        inp['scale_factor_c_exact'] = _fmt_c(sv[0])
+    return {'input': inp,
             'observed': msg,
             'expected': 'C14: extraction succeeds when no largest deflection is on sample 0; peak = first global |extremum| (or the documented '
                         'trough swap for positive peaks with peak/trough <= 1.5); tip < peak <= trough; half-peak points are the nearest samples '
                         'within half the peak; recovery index = trough + offset, or T-1 beyond the end; scaling by c>0 scales values only; channel '
                         'permutation only permutes peak_trace_idx; features do not depend on the rest of the batch',
             'how': 'python: harness/props/c14.py oracle(np.array(arr_in, dtype), kwargs, idx_from_trough) -> '
-                   'ibldsp.waveforms.compute_spike_features(arr_in, **kwargs)'}
+                   'ibldsp.waveforms.compute_spike_features(arr_in, **kwargs), and again on arr_in * c for c in SCALE_FACTORS '
+                   '(scale_factor_c, when present, is the factor that breaks the scaling law)'}
 
 
 def replay(ctx, rep):
@@ -672,4 +761,11 @@ def replay(ctx, rep):
                    dtype=np.dtype(i['dtype']))
     r = _fails(arr, i['kwargs'], i['idx_from_trough'])
     print('oracle:', r)
+    if r is None and i.get('scale_factor_c'):      # the recorded factor alone
+        c = float(i['scale_factor_c'])
+        d1, _ = _features(arr, **i['kwargs'])
+        d2, _ = _features(arr * arr.dtype.type(c), **i['kwargs'])
+        if d1 is not None and (d2 is None or any(_same(d1.iloc[n], d2.iloc[n], [x for x in IDX_COLS if x in INT_COLS]) for n in range(len(d1)))):
+            r = f'scaling by {c} changes an index'
+            print('oracle:', r)
     return r is not None
